@@ -34,6 +34,11 @@ let line l =
     let c = r_cfg (parse_sexp sx) in
     if not (Justify.ldefs_unique_cfg c) then "(local-defs-not-unique)"
     else if Justify.vjust_cfg (z_of_hex p) c then "(justified)" else "(unjustified)"
+  | "djust" ->
+    let rest = Stdlib.String.sub l (sp1 + 1) (Stdlib.String.length l - sp1 - 1) in
+    let c = r_cfg (parse_sexp rest) in
+    if not (DegJustify.array_free_cfg c) then "(arrays)"
+    else if DegJustify.djust_cfg c then "(justified)" else "(unjustified)"
   | "ssacheck" ->
     (* ssacheck (cfg ...) (idom ...) *)
     let rest = Stdlib.String.sub l (sp1 + 1) (Stdlib.String.length l - sp1 - 1) in
